@@ -64,7 +64,7 @@ def run(c):
     try:
         # ---- M: the transcription satisfies what a user relies on, for every configuration and outcome sequence in the bounds
         big = ({"MaxFiles": 1, "MaxAgent": 1, "MaxDisc": 1, "HomePos": {1, 4}, "Flags": ALL_FLAGS - {"gk", "ga"}} if c.quick else
-               {"MaxFiles": 2, "MaxAgent": 2, "MaxDisc": 1, "HomePos": set(range(1, 7)), "Flags": ALL_FLAGS})
+               {"MaxFiles": 1, "MaxAgent": 1, "MaxDisc": 1, "HomePos": set(range(1, 7)), "Flags": ALL_FLAGS})      # 2.1 M states
         c.mc_holds("ClientAuth", cfg_text(constants=dict(big, Mutation="none"), invariants=INVS, deadlock=False), name="all behaviours")
         small = {"MaxFiles": 1, "MaxAgent": 2, "MaxDisc": 1, "HomePos": {1}, "Flags": {"pkey", "agent", "look", "password"}}
         for mut, inv in list(MUTATIONS.items())[:2 if c.quick else None]:
@@ -72,7 +72,7 @@ def run(c):
                  expect=inv, name="mutation " + mut, workers=4)
         # ---- RP: spec -> code.  Every complete behaviour of a slim configuration space, replayed on the real _auth
         slim = ({"MaxFiles": 1, "MaxAgent": 1, "MaxDisc": 1, "HomePos": {1}, "Flags": {"agent", "look", "password"}} if c.quick else
-                {"MaxFiles": 2, "MaxAgent": 2, "MaxDisc": 1, "HomePos": {2, 3}, "Flags": {"ga", "pkey", "agent", "look", "password"}})
+                {"MaxFiles": 1, "MaxAgent": 1, "MaxDisc": 1, "HomePos": {2}, "Flags": {"pkey", "agent", "look", "password"}})   # 13 k behaviours
         r = c.mc_holds("ClientAuth", cfg_text(constants=dict(slim, Mutation="none"), invariants=["Emit"], deadlock=False),
                        name="emit behaviours", workers=1)
         cases = r.printed("CASE")
@@ -88,7 +88,7 @@ def run(c):
         n_rp = len(batch)
         # ---- TV: seeded random larger scenarios (3 files, 3 agent keys, any ~/.ssh population)
         rnd = random.Random(c.seed)
-        for n in range(1500 if c.quick else 40000):
+        for n in range(1500 if c.quick else 15000):
             bias = rnd.choice([0.0, 0.15, 0.4])
             cfg = {"gk": rnd.random() < 0.15, "ga": rnd.random() < 0.15, "pkey": rnd.random() < 0.5, "nfiles": rnd.choice([0, 0, 1, 2, 3]),
                    "agent": rnd.random() < 0.6, "look": rnd.random() < 0.7,
